@@ -229,7 +229,7 @@ pub fn run(r: &mut Runner) -> &'static str {
     r.rule = "histories as for C09 (big values rarer). oracle: expected bytes = signature, the two control bytes (family nibble from the constructor's address value), [length field ignored: C09], \
               constructor address block, then each payload's wire encoding by the reference encoders R-ENC, in call order - compared with every byte of the output; the length field must be the explicit length in force or the byte count; plus \
               metamorphic twins run on the same history (drop / add reserve_capacity, unbatch / batch, swap TLV struct <-> tuple <-> write_tlv, with_addresses <-> new + write_payload(addresses), \
-              P <-> &P) that must build identical bytes. non-trivial = at least two writes of different kinds, or a batch of >= 2, or a reserve after the first write; distinct by SipHash"
+              P <-> &P) that must build identical bytes. non-trivial = at least two writes of different kinds, or a batch of >= 2, or a reserve after the first write; distinct by SipHash Added later: the same phased / related histories as C09, owned TLVs, batches through filter / from_fn iterators."
         .into();
     r.assumptions.push("trusted: reference encoders in harness/src/oracle/enc.rs (shared with C20 and C07); a partly consumed TypeLengthValues iterator still stands for its whole section".into());
     let n = r.n(120_000, 3_000_000);
